@@ -323,7 +323,12 @@ def reuse_histories(prop, acc):
                         sch = make_scheduler(sc1, resources)
                         ex1 = execute(sc1, scheduler=sch)
                         if (ex1.status == 'ok') != (first == 'ok'):
-                            raise runtime.HarnessError(f'reuse history: first plan expected to be {first}, got {ex1.status} {ex1.error!r}')
+                            if first == 'ok' and prop != 'C06':
+                                # a plain two-task plan on two Monday-Friday resources was not scheduled
+                                V, _ = _mk_V(acc, prop, sc1, {'history': 'first plan of a reuse history'})
+                                V('no-schedule-for-plain-plan', mode, f'calc did not return a schedule: {ex1.error!r}')
+                            acc.count('reuse_history_premise_not_met')
+                            continue
                         sch2 = sch if mode == 'same-scheduler' else make_scheduler(sc2, resources)
                         ex2 = execute(sc2, scheduler=sch2)
                         acc.count('premise:calc-after-%s-calc-with-same-resources' % ('failed' if first == 'fails' else 'another'))
